@@ -158,7 +158,8 @@ def run_growth(ck: core.Check, tier: str) -> Dict[str, Any]:
         ck.drift(f"expand ({kind}, {prof}): scenario {scn} gave {got}")
     # binding self-test: with a mapper that answers for the wrong element the comparison must reject
     probes = [(scn, al) for scn, al in items
-              if any(e["k"] == "N" and e["v"] == len(scn["fmap"]) for e in scn["src"]) and scn["fmap"][-1]["tl"]][:300]
+              if scn["dsp"] == NEVER and any(e["k"] == "N" and e["v"] == len(scn["fmap"]) for e in scn["src"]) and scn["fmap"][-1]["tl"]]
+    probes = probes[::max(1, len(probes) // 300)][:300]
     rejected = sum(1 for scn, al in probes if json.dumps(perform(scn, "plain", sabotage=True), sort_keys=True) not in al)
     if probes and rejected == 0:
         raise RuntimeError("expand binding self-test: a sabotaged mapper was accepted on every probe")
